@@ -21,10 +21,10 @@ RULE = ('cases are (error handler kind, route with 0-3 scripted middlewares and 
         'after every failure')
 ASSUMPTIONS = ['only Exception subclasses (SystemExit/KeyboardInterrupt/GeneratorExit are outside "any Exception")',
                'a render_error that returns a non-response is a mis-configured handler and is not judged (O8)']
-REQUIRED_REACH = ['handler:default', 'handler:contextual', 'handler:reraise', 'handler:broken-render-error', 'handler:render-error-raises-http',
+REQUIRED_REACH = ['broken-renderer:several-exception-types', 'handler:default', 'handler:contextual', 'handler:reraise', 'handler:broken-render-error', 'handler:render-error-raises-http',
                   'handler:render-error-returns-other', 'outcome:500-from-exception', 'outcome:500-from-nonresponse',
                   'outcome:http-raised', 'outcome:http-returned', 'outcome:reraised-original', 'fallback-compared',
-                  'history:probes-compared', 'deviation-ran', 'msg:surrogate', 'msg:badstr', 'msg:badrepr', 'msg:huge']
+                  'history:probes-compared', 'deviation-ran', 'msg:surrogate', 'msg:surrogate-high', 'msg:surrogate-low', 'error-answer-headers-checked', 'msg:badstr', 'msg:badrepr', 'msg:huge']
 NSHARDS = 16
 HANDLERS = ['default', 'contextual', 'reraise', 'broken-render-error', 'render-error-raises-http', 'render-error-returns-other',
             'reraise+broken-render-error', 'default+debug-flag', 'broken-render-error+debug-flag', 'render-error-returns-other+debug-flag']
@@ -40,7 +40,7 @@ RETURNS = ['Response', 'BaseResponse', 'str', 'None', 'int', 'dict', 'list', 'by
 EXC_KINDS = ['ValueError', 'KeyError', 'TypeError', 'RuntimeError', 'ZeroDivisionError', 'AttributeError', 'IndexError',
              'OSError', 'UnicodeDecodeError', 'AssertionError', 'LookupError', 'Custom', 'NoArgs', 'NonStrArgs',
              'NameError', 'StopIteration', 'RecursionError', 'NotImplementedError']
-MSG_KINDS = ['ascii', 'nonascii', 'huge', 'badstr', 'badrepr', 'surrogate', 'markup', 'empty', 'multiline', 'crlf', 'control']
+MSG_KINDS = ['ascii', 'nonascii', 'huge', 'badstr', 'badrepr', 'surrogate', 'surrogate-high', 'surrogate-low', 'surrogate-pair-reversed', 'markup', 'empty', 'multiline', 'crlf', 'control']
 POSITIONS = ['ep', 'rn'] + ['m%d.%s.%s' % (k, ph, when) for k in range(3) for ph in ('request', 'endpoint', 'render')
                             for when in ('before', 'after')]
 
@@ -76,7 +76,8 @@ def http_classes():
 
 def message(kind):
     return {'ascii': 'plain failure', 'nonascii': 'caf\xe9 ☃ 日本', 'huge': 'x' * (1 << 20),
-            'surrogate': 'bad \udc80 name', 'markup': '<b>&"\'{x}{#y}', 'empty': '',
+            'surrogate': 'bad \udc80 name', 'surrogate-high': 'bad token \ud83d in input', 'surrogate-low': '\udc00',
+            'surrogate-pair-reversed': 'x \udfff\ud800 y', 'markup': '<b>&"\'{x}{#y}', 'empty': '',
             'multiline': 'upstream said:\n  line 1\n  line 2\n', 'crlf': 'bad header\r\nX-Injected: 1\r\n\r\nbody',
             'control': 'bell\x07 nul\x00 esc\x1b[31m tab\t vt\x0b'}.get(kind, 'msg')
 
@@ -178,6 +179,9 @@ def rn(context):
     return Response('rendered:%s' % json.dumps(context, sort_keys=True, default=repr), mimetype='text/plain')
 
 
+_broken_kinds_seen = set()
+
+
 def make_handler(kind):
     from clastic import errors
     if kind == 'default':
@@ -194,7 +198,14 @@ def make_handler(kind):
     if kind in ('broken-render-error', 'reraise+broken-render-error'):
         class BrokenRender(errors.ErrorHandler):
             def render_error(self, request, _error):
-                raise RuntimeError('render_error itself failed')
+                # a broken renderer fails in whatever way its bug makes it fail (decided by the request, so that a case
+                # replays the same way)
+                import zlib
+                kinds = [RuntimeError, AttributeError, TypeError, KeyError, LookupError, NameError, ValueError, OSError, AssertionError,
+                         ZeroDivisionError, IndexError, NotImplementedError, UnicodeError, StopIteration, MemoryError, RecursionError]
+                k = kinds[zlib.crc32(('%s %s %s' % (request.method, request.path, request.headers.get('Accept'))).encode()) % len(kinds)]
+                _broken_kinds_seen.add(k.__name__)
+                raise k('render_error itself failed')
         # re-raising is about *uncaught exceptions of the application*; a renderer that fails while an HTTP error is being
         # rendered still falls back to the default rendering
         return BrokenRender(reraise_uncaught=(kind == 'reraise+broken-render-error'))
@@ -299,7 +310,7 @@ def _expected(case):
 
 def key_for(case, kind):
     act = case['act']
-    if act[0] == 'raise' and act[2] == 'surrogate':
+    if act[0] == 'raise' and act[2].startswith('surrogate'):
         return 'C08/%s:surrogate-text' % kind
     return 'C08/%s' % kind
 
@@ -341,6 +352,7 @@ def judge(sh, case, record=True):
     if len(ex.sr_calls) != 1 or ex.status is None:
         sh.violation(key_for(case, 'incomplete-response'), '%s: start_response calls %r' % (brief, ex.sr_calls), case)
         return ex
+    check_allow(ex, brief, case)
     if ex.status != exp[1]:
         sh.violation(key_for(case, 'wrong-status'), '%s: status %s, expected %s' % (brief, ex.status, exp[1]), case)
         return ex
@@ -356,6 +368,10 @@ def judge(sh, case, record=True):
     if case['handler'] in ('broken-render-error', 'render-error-raises-http', 'reraise+broken-render-error', 'broken-render-error+debug-flag') and ex.status >= 400:
         ctrl, _ = send(app_for('default'), case)
         sh.hit('fallback-compared')
+        for kn in sorted(_broken_kinds_seen):
+            sh.seen('broken-renderer-failed-with', kn)
+        if 'AttributeError' in _broken_kinds_seen and 'TypeError' in _broken_kinds_seen:
+            sh.hit('broken-renderer:several-exception-types')
         if (ctrl.status, ctrl.header('Content-Type'), norm_body(ctrl.body)) != (ex.status, ex.header('Content-Type'), norm_body(ex.body)):
             sh.violation(key_for(case, 'fallback-differs'),
                          '%s: fallback gave %s %s %r, default rendering of the same error is %s %s %r'
@@ -389,11 +405,25 @@ def fingerprint(app):
             ('middlewares', tuple(id(m) for m in app.middlewares))]
 
 
+_sh = [None]
+
+
+def check_allow(ex, brief, case):
+    """nothing in these applications sets an Allow header except the framework's own 405: an answer with another status
+    that carries one carries a left-over of some earlier request"""
+    if ex.status is not None and ex.status != 405 and ex.header('Allow') is not None and _sh[0] is not None:
+        _sh[0].violation('C08/header-of-an-earlier-answer', '%s: status %s carries Allow: %s' % (brief, ex.status, ex.header('Allow')), case)
+    elif _sh[0] is not None and ex.status is not None and ex.status >= 400:
+        _sh[0].hit('error-answer-headers-checked')
+
+
 def take_probes(app):
     out = []
     for m, p in PROBES:
         ex = probe.request(app, m, p, token=None, trace=spies.new_trace())
-        out.append((ex.status, ex.header('Content-Type'), ex.body, probe.safe_repr(ex.exc) if ex.exc else None))
+        out.append((ex.status, ex.header('Content-Type'), ex.body, probe.safe_repr(ex.exc) if ex.exc else None,
+                    sorted((k.lower(), v) for k, v in ex.headers)))
+        check_allow(ex, '%s %s (probe)' % (m, p), {'probe': [m, p]})
     return out
 
 
@@ -435,6 +465,7 @@ def plan(tier, seed):
 
 
 def run_shard(sh, spec):
+    _sh[0] = sh
     HTTP_CLASSES[:] = http_classes()
     sh.notes['http_classes'] = len(HTTP_CLASSES)
     rng = Rng(spec['seed'], PROPERTY, spec['label'])
@@ -445,7 +476,15 @@ def run_shard(sh, spec):
 
 
 def replay(sh, case, spec):
+    _sh[0] = sh
     HTTP_CLASSES[:] = http_classes()
+    if 'probe' in case:
+        # the left-over needs its history: a 405 first, then the probe
+        app = build_app('default')
+        probe.request(app, 'POST', '/item/abc', token=None, trace=spies.new_trace())
+        ex = probe.request(app, case['probe'][0], case['probe'][1], token=None, trace=spies.new_trace())
+        check_allow(ex, 'replayed probe', case)
+        return
     if 'history' in case:
         app = build_app(case['handler'])
         _apps[case['handler']] = app
